@@ -3,12 +3,21 @@
 package discov
 
 import (
+	"context"
 	"encoding/json"
+	"fmt"
+	"reflect"
 	"sort"
+	"strings"
+	"sync"
+	"sync/atomic"
 	"testing"
+	"time"
 
 	"github.com/gotid/god/internal/verifdrv"
 	"github.com/gotid/god/lib/discov/internal"
+	clientv3 "go.etcd.io/etcd/client/v3"
+	"google.golang.org/grpc"
 )
 
 // One container case: the OnAdd/OnDelete calls a subscriber's container receives,
@@ -20,8 +29,14 @@ type verifContOp struct {
 }
 
 type verifContCase struct {
+	Kind string        `json:"kind"` // "" (container case) | "pub"
 	Excl bool          `json:"excl"`
 	Ops  []verifContOp `json:"ops"`
+	// publisher cases
+	Key   string   `json:"key"`
+	Value string   `json:"value"`
+	Id    int64    `json:"id"`   // > 0: WithId
+	Pops  []string `json:"pops"` // start | lose | losex | pause | resume | stop
 }
 
 type verifValEntry struct {
@@ -71,6 +86,9 @@ func TestVerifDriver(t *testing.T) {
 		if err := json.Unmarshal(raw, &cs); err != nil {
 			return map[string]any{"error": err.Error()}
 		}
+		if cs.Kind == "pub" {
+			return verifPublisher(cs)
+		}
 		// the container is created the way NewSubscriber does it
 		sub := &Subscriber{}
 		if cs.Excl {
@@ -95,4 +113,319 @@ func TestVerifDriver(t *testing.T) {
 		}
 		return map[string]any{"samples": samples}
 	})
+}
+
+// ---------------------------------------------------------------- publisher life cycle on an etcd with leases
+
+const verifWait = 5 * time.Second
+
+func verifNew[T any](p **T) *T {
+	v := new(T)
+	*p = v
+	return v
+}
+
+func verifAppendNew[T any](s *[]*T) *T {
+	v := new(T)
+	*s = append(*s, v)
+	return v
+}
+
+type verifStream struct {
+	ch     chan clientv3.WatchResponse
+	prefix string
+}
+
+type verifKV struct {
+	val   string
+	lease int64
+}
+
+// verifLeaseEtcd: keys attached to leases (Grant / Put WithLease / Revoke / expiry), keep-alive channels the
+// driver closes, and watch streams that are told every change of the store.
+type verifLeaseEtcd struct {
+	mu        sync.Mutex
+	store     map[string]verifKV
+	rev       int64
+	nextLease int64
+	leases    map[int64]bool
+	kaChans   []chan *clientv3.LeaseKeepAliveResponse
+	kaLeases  []int64
+	grants    int
+	revokes   int
+	streams   []*verifStream
+	stuck     string
+}
+
+func (e *verifLeaseEtcd) ActiveConnection() *grpc.ClientConn { return nil }
+func (e *verifLeaseEtcd) Close() error                       { return nil }
+func (e *verifLeaseEtcd) Ctx() context.Context               { return context.Background() }
+
+func (e *verifLeaseEtcd) Grant(ctx context.Context, ttl int64) (*clientv3.LeaseGrantResponse, error) {
+	e.mu.Lock()
+	defer e.mu.Unlock()
+	id := e.nextLease
+	e.nextLease++
+	e.leases[id] = true
+	e.grants++
+	return &clientv3.LeaseGrantResponse{ID: clientv3.LeaseID(id), TTL: ttl}, nil
+}
+
+func (e *verifLeaseEtcd) KeepAlive(ctx context.Context, id clientv3.LeaseID) (<-chan *clientv3.LeaseKeepAliveResponse, error) {
+	ch := make(chan *clientv3.LeaseKeepAliveResponse)
+	e.mu.Lock()
+	e.kaChans = append(e.kaChans, ch)
+	e.kaLeases = append(e.kaLeases, int64(id))
+	e.mu.Unlock()
+	return ch, nil
+}
+
+func (e *verifLeaseEtcd) Put(ctx context.Context, key, val string, opts ...clientv3.OpOption) (*clientv3.PutResponse, error) {
+	op := clientv3.OpPut(key, val, opts...)
+	lease := reflect.ValueOf(op).FieldByName("leaseID").Int() // no accessor for WithLease
+	e.mu.Lock()
+	if lease != 0 && !e.leases[lease] {
+		e.mu.Unlock()
+		return nil, fmt.Errorf("etcdserver: requested lease not found")
+	}
+	e.rev++
+	e.store[key] = verifKV{val, lease}
+	ev := &clientv3.Event{Type: clientv3.EventTypePut}
+	kv := verifNew(&ev.Kv)
+	kv.Key, kv.Value, kv.ModRevision, kv.Lease = []byte(key), []byte(val), e.rev, lease
+	e.mu.Unlock()
+	e.deliver([]*clientv3.Event{ev})
+	return &clientv3.PutResponse{}, nil
+}
+
+// drop removes the lease and every key attached to it (Revoke, or expiry on the server side).
+func (e *verifLeaseEtcd) drop(lease int64) {
+	e.mu.Lock()
+	delete(e.leases, lease)
+	var keys []string
+	for k, kv := range e.store {
+		if kv.lease == lease {
+			keys = append(keys, k)
+		}
+	}
+	sort.Strings(keys)
+	var evs []*clientv3.Event
+	for _, k := range keys {
+		e.rev++
+		delete(e.store, k)
+		ev := &clientv3.Event{Type: clientv3.EventTypeDelete}
+		kv := verifNew(&ev.Kv)
+		kv.Key, kv.ModRevision = []byte(k), e.rev
+		evs = append(evs, ev)
+	}
+	e.mu.Unlock()
+	e.deliver(evs)
+}
+
+func (e *verifLeaseEtcd) Revoke(ctx context.Context, id clientv3.LeaseID) (*clientv3.LeaseRevokeResponse, error) {
+	e.mu.Lock()
+	known := e.leases[int64(id)]
+	e.mu.Unlock()
+	var err error
+	if known {
+		e.drop(int64(id))
+	} else {
+		err = fmt.Errorf("etcdserver: requested lease not found")
+	}
+	e.mu.Lock()
+	e.revokes++
+	e.mu.Unlock()
+	return &clientv3.LeaseRevokeResponse{}, err
+}
+
+func (e *verifLeaseEtcd) Get(ctx context.Context, key string, opts ...clientv3.OpOption) (*clientv3.GetResponse, error) {
+	e.mu.Lock()
+	defer e.mu.Unlock()
+	var keys []string
+	for k := range e.store {
+		if strings.HasPrefix(k, key) {
+			keys = append(keys, k)
+		}
+	}
+	sort.Strings(keys)
+	resp := &clientv3.GetResponse{}
+	verifNew(&resp.Header).Revision = e.rev
+	for _, k := range keys {
+		kv := verifAppendNew(&resp.Kvs)
+		kv.Key, kv.Value = []byte(k), []byte(e.store[k].val)
+	}
+	return resp, nil
+}
+
+func (e *verifLeaseEtcd) Watch(ctx context.Context, key string, opts ...clientv3.OpOption) clientv3.WatchChan {
+	w := &verifStream{ch: make(chan clientv3.WatchResponse), prefix: key}
+	e.mu.Lock()
+	e.streams = append(e.streams, w)
+	e.mu.Unlock()
+	return w.ch
+}
+
+// deliver hands the events to every stream, each followed by an empty response taken only once the events
+// have been handled.
+func (e *verifLeaseEtcd) deliver(evs []*clientv3.Event) {
+	e.mu.Lock()
+	streams := append([]*verifStream(nil), e.streams...)
+	e.mu.Unlock()
+	for _, w := range streams {
+		var mine []*clientv3.Event
+		for _, ev := range evs {
+			if strings.HasPrefix(string(ev.Kv.Key), w.prefix) {
+				mine = append(mine, ev)
+			}
+		}
+		if len(mine) == 0 {
+			continue
+		}
+		for _, r := range []clientv3.WatchResponse{{Events: mine}, {}} {
+			select {
+			case w.ch <- r:
+			case <-time.After(verifWait):
+				e.mu.Lock()
+				e.stuck = "watch stream not read"
+				e.mu.Unlock()
+				return
+			}
+		}
+	}
+}
+
+func (e *verifLeaseEtcd) counts() (ka, revokes, streams int) {
+	e.mu.Lock()
+	defer e.mu.Unlock()
+	return len(e.kaChans), e.revokes, len(e.streams)
+}
+
+func verifUntil(cond func() bool) bool {
+	deadline := time.Now().Add(verifWait)
+	for i := 0; !cond(); i++ {
+		if time.Now().After(deadline) {
+			return false
+		}
+		if i < 200 {
+			time.Sleep(20 * time.Microsecond)
+		} else {
+			time.Sleep(time.Millisecond)
+		}
+	}
+	return true
+}
+
+func verifCall(f func()) bool {
+	done := make(chan struct{})
+	go func() { f(); close(done) }()
+	select {
+	case <-done:
+		return true
+	case <-time.After(verifWait):
+		return false
+	}
+}
+
+type verifPubRow struct {
+	Store   [][2]any `json:"store"`  // (key, lease) of every key in the store, sorted
+	Values  []string `json:"values"` // what a subscriber of the key lists, sorted
+	Grants  int      `json:"grants"`
+	Revokes int      `json:"revokes"`
+	Stuck   string   `json:"stuck"`
+}
+
+var verifPubSeq int64
+
+// verifPublisher runs a real Publisher (and a real Subscriber of the same key, attached first) against the
+// etcd with leases: start = KeepAlive(); lose = the keep-alive channel closes; losex = the lease expired on the
+// server (its keys are gone) and the channel closes; pause / resume / stop.
+func verifPublisher(cs verifContCase) any {
+	n := atomic.AddInt64(&verifPubSeq, 1)
+	endpoints := []string{fmt.Sprintf("verif-pub-%d:2379", n)}
+	etcd := &verifLeaseEtcd{store: map[string]verifKV{}, rev: 1, nextLease: 1, leases: map[int64]bool{}}
+	internal.VerifSetClient(endpoints, etcd)
+	rows := []verifPubRow{}
+	sub, err := NewSubscriber(endpoints, cs.Key)
+	if err != nil {
+		return map[string]any{"error": err.Error()}
+	}
+	if !verifUntil(func() bool { _, _, st := etcd.counts(); return st >= 1 }) {
+		return map[string]any{"error": "no watch stream"}
+	}
+	var opts []PubOption
+	if cs.Id > 0 {
+		opts = append(opts, WithId(cs.Id))
+	}
+	pub := NewPublisher(endpoints, cs.Key, cs.Value, opts...)
+	active, paused := false, false
+	stuck := ""
+	for _, op := range cs.Pops {
+		if stuck != "" {
+			break
+		}
+		ka0, rv0, _ := etcd.counts()
+		switch op {
+		case "start":
+			if err := pub.KeepAlive(); err != nil {
+				stuck = "KeepAlive: " + err.Error()
+			}
+			active = true
+		case "lose", "losex":
+			if !active || ka0 == 0 {
+				break
+			}
+			etcd.mu.Lock()
+			ch, lease := etcd.kaChans[ka0-1], etcd.kaLeases[ka0-1]
+			etcd.mu.Unlock()
+			if op == "losex" {
+				etcd.drop(lease)
+			}
+			close(ch)
+			// the goroutine revokes the lost lease and registers again, ending with a new KeepAlive call
+			if !verifUntil(func() bool { k, _, _ := etcd.counts(); return k > ka0 }) {
+				stuck = "no re-registration"
+			}
+		case "pause":
+			if !active {
+				break
+			}
+			if !verifCall(pub.Pause) || !verifUntil(func() bool { _, r, _ := etcd.counts(); return r > rv0 }) {
+				stuck = "pause"
+			}
+			active, paused = false, true
+		case "resume":
+			if !paused {
+				break
+			}
+			if !verifCall(pub.Resume) || !verifUntil(func() bool { k, _, _ := etcd.counts(); return k > ka0 }) {
+				stuck = "resume"
+			}
+			active, paused = true, false
+		case "stop":
+			pub.Stop()
+			if active && !verifUntil(func() bool { _, r, _ := etcd.counts(); return r > rv0 }) {
+				stuck = "stop"
+			}
+			active, paused = false, false
+		}
+		etcd.mu.Lock()
+		if stuck == "" {
+			stuck = etcd.stuck
+		}
+		row := verifPubRow{Store: [][2]any{}, Grants: etcd.grants, Revokes: etcd.revokes, Stuck: stuck}
+		var keys []string
+		for k := range etcd.store {
+			keys = append(keys, k)
+		}
+		sort.Strings(keys)
+		for _, k := range keys {
+			row.Store = append(row.Store, [2]any{k, etcd.store[k].lease})
+		}
+		etcd.mu.Unlock()
+		vals := append([]string{}, sub.Values()...)
+		sort.Strings(vals)
+		row.Values = vals
+		rows = append(rows, row)
+	}
+	return map[string]any{"rows": rows}
 }
